@@ -93,6 +93,10 @@ type EventOpts struct {
 	// BadModes: some PATH records carry a mode that is not octal text (not something the kernel writes: only for
 	// checks whose domain is arbitrary text, not for the well-formed events of C09)
 	BadModes bool
+	// DualSockaddr: some events carry two SOCKADDR records of different families (a unix path and an IP address),
+	// so that both socket_path and socket_addr are present (sendmmsg-like; only for checks about repeatability,
+	// not for C09 where the second record's family/addr fields would collide with the first's)
+	DualSockaddr bool
 }
 
 // GenSyscallGroup builds a SYSCALL event with a random subset and order of companion records.
@@ -111,6 +115,17 @@ func GenSyscallGroup(r *mon.Rand, o EventOpts) Group {
 	}
 	sys := fmt.Sprintf("type=SYSCALL %s arch=c000003e syscall=%s success=%s exit=%s a0=%s a1=%s a2=%s a3=%s items=%d ppid=%s pid=%s auid=%s uid=%s gid=%s euid=%s suid=%s fsuid=%s egid=%s sgid=%s fsgid=%s tty=%s ses=%s comm=\"%s\" exe=\"/usr/bin/%s\" subj=%s:%s:%s:s0 key=%s",
 		hdr, sc, success, exit, u.word("x"), u.word("y"), u.word("z"), u.word("w"), r.Intn(4), u.num(), u.num(), u.num(), u.num(), u.num(), u.num(), u.num(), u.num(), u.num(), u.num(), u.num(), u.word("pts"), u.num(), u.word("comm"), u.word("exe"), u.word("su"), u.word("sr"), u.word("st"), u.ruleKey())
+	// one id other than auid is sometimes the "no such id" value (an id that has no mapping in the user namespace
+	// is reported as 4294967295; user-space records also write -1): at most one per event, so the value stays
+	// unique.  Decided on a forked stream: the rest of the event is what it would have been.
+	if fr := r.Fork(91); fr.Chance(1, 6) {
+		k := mon.Pick(fr, []string{" uid=", " gid=", " euid=", " suid=", " fsuid=", " egid=", " sgid=", " fsgid="})
+		if i := strings.Index(sys, k); i >= 0 {
+			j := i + len(k)
+			e := j + strings.IndexByte(sys[j:], ' ')
+			sys = sys[:j] + mon.Pick(fr, []string{"4294967295", "4294967295", "-1"}) + sys[e:]
+		}
+	}
 	var rest []string
 	add := func(l string) { rest = append(rest, l) }
 	if r.Chance(2, 3) {
@@ -157,7 +172,16 @@ func GenSyscallGroup(r *mon.Rand, o EventOpts) Group {
 		}
 		add(l)
 	}
-	if r.Chance(1, 3) {
+	if o.DualSockaddr && r.Chance(1, 3) {
+		ip := [4]byte{10, byte(r.Intn(250) + 1), byte(r.Intn(250) + 1), byte(r.Intn(250) + 1)}
+		a := fmt.Sprintf("type=SOCKADDR %s saddr=%s", hdr, SockaddrInet4(ip, uint16(1024+r.Intn(60000))))
+		b := fmt.Sprintf("type=SOCKADDR %s saddr=%s", hdr, SockaddrUnix([]byte("/run/"+u.word("sock")), nil))
+		if r.Bool() {
+			a, b = b, a
+		}
+		add(a)
+		add(b)
+	} else if r.Chance(1, 3) {
 		ip := [4]byte{10, byte(r.Intn(250) + 1), byte(r.Intn(250) + 1), byte(r.Intn(250) + 1)}
 		switch r.Intn(5) {
 		case 3:
